@@ -1,5 +1,6 @@
 import NanoVerif.Model.Proto
 import NanoVerif.Model.Functions
+import NanoVerif.Model.FunctionsBase
 /-! driver families `fn` and `ct` (C06): benchmark functions and constraint kinds at `Float` -/
 namespace NanoVerif.Driver.Functions
 open NanoVerif.Proto NanoVerif.Loss NanoVerif.Fn
@@ -17,13 +18,8 @@ def toRows (c : Nat) : Nat → Vec → List Vec
   | 0, _ => []
   | r + 1, xs => xs.take c :: toRows c r (xs.drop c)
 
-/-- `function_t::size()` of the prototype built by `make(dims, summands)` -/
-def fnSize (id : String) (dims : Nat) : Nat :=
-  if id.contains '+' then max dims 2 else
-  match id with
-  | "rosenbrock" => max dims 2
-  | "powell" => max 4 (dims - dims % 4)
-  | _ => dims
+/-- `function_t::size()` of the prototype built by `make(dims, summands)`: `FnBase.makeSize` (Model/FunctionsBase.lean) -/
+def fnSize (id : String) (dims : Nat) : Nat := FnBase.makeSize id dims
 
 /-- elastic-net prototypes `<loss>+<ridge|lasso|elasticnet>[…]`: the kernel is chosen by the part before `+`; the data
     and the two regularisation factors are appended by the harness: `N n inputs(N*n) bopt targets(N) alpha1 alpha2` -/
@@ -117,6 +113,13 @@ def handleFn : Toks → Option String
     let o ← fnObj id dims extra
     guard (x.length = o.size)
     pure (showEval o x)
+  | "flags" :: ts => do
+    -- fn flags <id> <dims> <summands> [extra…]  ->  ok size   (the declared flags are the implementation's: Gen/Flags.lean)
+    let (id, ts) ← pStr ts
+    let (dims, ts) ← pNat ts
+    let (_summands, _extra) ← pNat ts
+    guard (dims ≥ 1)
+    pure s!"ok {fnSize id dims}"
   | _ => none
 
 /-- the constraint kinds; returns the object and the rest of the tokens -/
@@ -156,6 +159,108 @@ def handleCt : Toks → Option String
       let (x, ts) ← pList pFloat ts
       guard (ts.isEmpty ∧ x.length = o.size)
       pure (showEval o x)
+  | _ => none
+
+/-! ### family `fbase`: histories on the `function_t` base class (Model/FunctionsBase.lean) -/
+
+open NanoVerif.Constraint in
+/-- a constraint of `fbase hist … cg <kind> <params>` -/
+def pBaseConstraint : P (C Float) := fun ts => do
+  let (kind, ts) ← pStr ts
+  if kind = "constant" ∨ kind = "minimum" ∨ kind = "maximum" then
+    let (v, ts) ← pFloat ts
+    let (d, ts) ← pNat ts
+    if kind = "constant" then pure (C.constant v d, ts)
+    else if kind = "minimum" then pure (C.minimum v d, ts) else pure (C.maximum v d, ts)
+  else if kind = "ball-eq" ∨ kind = "ball-ineq" then
+    let (o, ts) ← pList pFloat ts
+    let (r, ts) ← pFloat ts
+    pure (if kind = "ball-eq" then C.ballEq o r else C.ballIneq o r, ts)
+  else if kind = "linear-eq" ∨ kind = "linear-ineq" then
+    let (q, ts) ← pList pFloat ts
+    let (r, ts) ← pFloat ts
+    pure (if kind = "linear-eq" then C.linEq q r else C.linIneq q r, ts)
+  else if kind = "quadratic-eq" ∨ kind = "quadratic-ineq" then
+    let (rows, ts) ← pNat ts
+    let (cols, ts) ← pNat ts
+    let (data, ts) ← pList pFloat ts
+    let (q, ts) ← pList pFloat ts
+    let (r, ts) ← pFloat ts
+    guard (data.length = rows * cols)
+    let P := toRows cols rows data
+    pure (if kind = "quadratic-eq" then C.quadEq P q r else C.quadIneq P q r, ts)
+  else if kind = "functional-eq" ∨ kind = "functional-ineq" then
+    let (id, ts) ← pStr ts
+    let (dims, ts) ← pNat ts
+    let o ← fnObj id dims []
+    let f : List Float → Float × List Float := fun x => (o.f x, o.g x)
+    pure (if kind = "functional-eq" then C.funEq o.size f else C.funIneq o.size f, ts)
+  else none
+
+/-- `std::numeric_limits<double>::epsilon()` -/
+def epsD : Float := Float.ofBits 0x3CB0000000000000
+
+open NanoVerif.Constraint NanoVerif.FnBase in
+/-- the ops of one history; every op prints `<ans> <#constraints> <#eq> <#ineq> <fcalls> <gcalls>` -/
+def fbaseGo (o : Obj) : Nat → St Float → Toks → List String → Option String
+  | 0, _, ts, acc => if ts.isEmpty then some (" ".intercalate acc.reverse) else none
+  | k + 1, s, ts, acc => do
+    let (name, ts) ← pStr ts
+    let fin (s' : St Float) (ans : String) (ts : Toks) : Option String :=
+      fbaseGo o k s' ts
+        (s!"{ans} {s'.cons.length} {countEq s'.cons} {countIneq s'.cons} {s'.fcalls} {s'.gcalls}" :: acc)
+    let ansOf : Option Bool → String := fun a => match a with | some true => "1" | some false => "0" | none => "0"
+    match name with
+    | "cg" =>
+      let (c, ts) ← pBaseConstraint ts
+      let r := step epsD s (.cg c)
+      fin r.1 (ansOf r.2) ts
+    | "cb" =>
+      let (lo, ts) ← pFloat ts
+      let (hi, ts) ← pFloat ts
+      let r := step epsD s (.cb lo hi)
+      fin r.1 (ansOf r.2) ts
+    | "cd" =>
+      let (lo, ts) ← pFloat ts
+      let (hi, ts) ← pFloat ts
+      let (d, ts) ← pInt ts
+      let r := step epsD s (.cd lo hi d)
+      fin r.1 (ansOf r.2) ts
+    | "cv" =>
+      let (lo, ts) ← pList pFloat ts
+      let (hi, ts) ← pList pFloat ts
+      let r := step epsD s (.cv lo hi)
+      fin r.1 (ansOf r.2) ts
+    | "v" =>
+      let (x, ts) ← pList pFloat ts
+      guard (x.length = s.size)
+      let r := step epsD s (.valid x)
+      fin r.1 (ansOf r.2) ts
+    | "e0" =>
+      let (x, ts) ← pList pFloat ts
+      guard (x.length = s.size)
+      let r := step epsD s (.eval 0)
+      fin r.1 (hexOfFloat (o.f x)) ts
+    | "e1" =>
+      let (x, ts) ← pList pFloat ts
+      guard (x.length = s.size)
+      let r := step epsD s (.eval x.length)
+      fin r.1 (hexOfFloat (o.f x)) ts
+    | "clr" =>
+      let r := step epsD s .clr
+      fin r.1 "0" ts
+    | _ => none
+
+/-- `fbase hist <id> <dims> <summands> <k> <op>*k` -/
+def handleFbase : Toks → Option String
+  | "hist" :: ts => do
+    let (id, ts) ← pStr ts
+    let (dims, ts) ← pNat ts
+    let (_summands, ts) ← pNat ts
+    let (k, ts) ← pNat ts
+    let o ← fnObj id dims []
+    let s : FnBase.St Float := FnBase.fresh o.size
+    fbaseGo o k s ts [s!"ok {o.size} 0 0 0"]
   | _ => none
 
 end NanoVerif.Driver.Functions
